@@ -27,8 +27,9 @@ impl<const T: JoinType> MergeJoinExecutor<T> {
 
         loop {
             match (&left_group, &right_group) {
-                // cross join if left key == right key
-                (Some((lkey, lchunk)), Some((rkey, rchunk))) if lkey == rkey => {
+                // cross join if left key == right key.
+                // NULL is not equal to anything: a key with a NULL matches nothing.
+                (Some((lkey, lchunk)), Some((rkey, rchunk))) if lkey == rkey && !has_null(lkey) => {
                     for left_row in lchunk {
                         for right_row in rchunk {
                             let values = left_row.iter().chain(right_row.iter()).cloned();
@@ -41,8 +42,9 @@ impl<const T: JoinType> MergeJoinExecutor<T> {
                     right_group = right_groups.next().await.transpose()?;
                 }
                 // left join if left key < right key or right is finished
+                // (or both keys are the same key with a NULL: then the left group goes first)
                 (Some((lkey, lchunk)), _)
-                    if right_group.as_ref().is_none_or(|(rkey, _)| lkey < rkey) =>
+                    if right_group.as_ref().is_none_or(|(rkey, _)| lkey <= rkey) =>
                 {
                     if T == JoinType::LeftOuter || T == JoinType::FullOuter {
                         for left_row in lchunk {
@@ -77,6 +79,11 @@ impl<const T: JoinType> MergeJoinExecutor<T> {
             yield chunk;
         }
     }
+}
+
+/// Returns true if any of the join keys is NULL.
+fn has_null(keys: &[DataValue]) -> bool {
+    keys.iter().any(|key| key.is_null())
 }
 
 /// Group rows by keys.
